@@ -101,6 +101,18 @@ CHECKS["C03"] = (
     "DESIGN.md §3 C03",
 )
 
+CHECKS["C02"] = (
+    "exploration",
+    "identity-graph monitor (mutable nodes of result vs receiver, minus objects reachable from the call's arguments and do_not_copy values) plus differential monitor (in-place mutations of one side must not change the snapshot of the other)",
+    "For every non-raising copy-on-write helper call (all 11 kinds/forms, fresh arguments, pure deep-copying transforms) and deepcopy on "
+    "generated classes, the sets of mutable objects reachable from result and receiver are intersected; anything shared must come from "
+    "the call's own arguments or a do_not_copy attribute, and untouched do_not_copy attributes must be identical objects. Then 1-4 "
+    "in-place changes (API operations and direct mutation of nested containers / nested spec instances) are applied to the result and "
+    "the receiver's snapshot must not move, and vice versa.",
+    "Trusted: vlib/snap.py graph walk. do_not_copy=True classes, frozen classes and do_not_copy x subclassing are outside the judged receivers.",
+    "DESIGN.md §3 C02",
+)
+
 NOT_YET = {}
 
 
